@@ -433,6 +433,7 @@ impl Check for MockLedger {
                 bad!("total-free-differ", "after request {n}: {:?}", snap.balances);
             }
         }
+        rep.class_if(s.instruments.iter().any(|(_, b, q)| (*b + *q) % 2 == 1), "instrument_configured_underlying_base");
         rep.class_if(acc_sell > 0, "accepted_sell");
         rep.class_if(acc_buy > 0, "accepted_buy");
         rep.class_if(rej_bal > 0, "balance_rejection");
